@@ -18,6 +18,7 @@ import itertools
 import os
 import re
 import signal
+import time
 
 from vf import core
 from vf.core import Failure
@@ -429,7 +430,7 @@ def case_strategy(backends):
                                    optional={"pa": val})
     sel = st.integers(0, 11)
 
-    def op_st(nt):
+    def op_st(nt, beaker=False):
         """A group of 1..3 ops on one template: an operation usually followed by a render that observes it."""
         ti = st.integers(0, nt - 1)
 
@@ -445,6 +446,8 @@ def case_strategy(backends):
                 st.tuples(st.just("get"), st.just(t), sel),
                 st.tuples(st.just("enable"), st.just(t), st.booleans()),
             )
+            if beaker:
+                single = st.one_of(single, single, single, st.tuples(st.just("recompile"), st.just(t)))
             off = st.tuples(st.just("enable"), st.just(t), st.just(False))
             on = st.tuples(st.just("enable"), st.just(t), st.just(True))
             return st.one_of(
@@ -467,7 +470,7 @@ def case_strategy(backends):
         temps = [gen_template(draw, backend, tid, uris[tid]) for tid in range(nt)]
         # every history starts by rendering each template once (in drawn order), then 2..20 op groups; <=30 ops
         first = [("render", ti, draw(ctx_st)) for ti in draw(st.permutations(range(nt)))]
-        groups = draw(st.lists(op_st(nt), min_size=2, max_size=20))
+        groups = draw(st.lists(op_st(nt, backend.startswith("beaker")), min_size=2, max_size=20))
         ops = (first + [o for g in groups for o in g])[:30]
         return {"backend": backend, "templates": temps, "ops": [list(o) for o in ops]}
 
@@ -592,6 +595,7 @@ class Machine:
             ts = TState(rec)
             uri = self.tag + ("/t%d" % ts.tid if decollide else "") + rec["uri"]
             ts.t_args = self._resolve_args(rec["cache_args"])
+            ts.uri = uri
             ts.subject = self._make(rec, uri, ts.t_args, True, ts.log)
             # the uncached reference never needs a backend; it gets the lock-free recording one so that a tree in
             # which cache_enabled=False is not honoured shows up in ref_log instead of dead-locking a real backend
@@ -649,7 +653,7 @@ class Machine:
         kind, ti = op[0], op[1]
         ts = self.ts[ti]
         secs = [ts.sections[i] for i in sorted(ts.sections)]
-        if kind in ("render", "inv_body", "enable"):
+        if kind in ("render", "inv_body", "enable", "recompile"):
             return list(op)
         arg = op[2]
         if isinstance(arg, str):
@@ -823,6 +827,18 @@ class Machine:
     def op_enable(self, ts, flag):
         ts.subject.cache_enabled = bool(flag)
         ts.enabled = bool(flag)
+
+    def op_recompile(self, ts):
+        """The template is compiled again under the same URI (what a lookup does when the file changed): it is a new
+        template, and Beaker - the one backend whose entries carry a creation time, which mako compares with the
+        template's compile time - must not serve it anything stored for the old one."""
+        if not self.backend.startswith("beaker"):
+            raise core.HarnessError("recompile is only generated for the Beaker backends")
+        time.sleep(0.003)  # (entry creation times and the new compile time are wall-clock floats)
+        ts.subject = self._make(ts.rec, ts.uri, ts.t_args, ts.enabled, ts.log)
+        ts.store, ts.frozen = {}, set()
+        self.inval_effective += 1
+        self.events.add("ev:recompiled")
 
     # -- render ---------------------------------------------------------------
     def op_render(self, ts, ctx):
